@@ -82,8 +82,10 @@ type vfC06Relay struct {
 	ReadBuf   int    `json:"read_buf"`
 	LateRdMs  int    `json:"late_reader_ms"` // fast open only: the client starts reading this late
 	StartMs   int    `json:"start_ms"`
-	Round     int    `json:"round,omitempty"` // churn worlds: relays of round r start when round r-1 is over
-	Role      string `json:"role,omitempty"`  // churn worlds: "A" ends one direction early, "B" starts in A's teardown window
+	AddrLen   int    `json:"addr_len,omitempty"` // requested address is padded to exactly this many bytes (0 = natural)
+	MsgLen    int    `json:"msg_len,omitempty"`  // dial_fail: the outbound's error text is padded to exactly this many bytes
+	Round     int    `json:"round,omitempty"`    // churn worlds: relays of round r start when round r-1 is over
+	Role      string `json:"role,omitempty"`     // churn worlds: "A" ends one direction early, "B" starts in A's teardown window
 	Seed      int64  `json:"seed"`
 }
 
@@ -236,6 +238,11 @@ func vfC06GenRelay(r *rand.Rand, idx, user, capBytes int, fastOpen bool) vfC06Re
 	return rl
 }
 
+// vfC06Boundaries: lengths around the QUIC varint width changes (63/64, and 16383/16384 which the
+// protocol caps at MaxAddressLength = MaxMessageLength = 2048) for the address of a TCPRequest and
+// the message of a TCPResponse.
+var vfC06Boundaries = []int{62, 63, 64, 65, 2047, 2048}
+
 func vfC06PickVeto(r *rand.Rand) int {
 	switch r.Intn(3) {
 	case 0:
@@ -282,6 +289,12 @@ func vfC06Gen(k *vfKit, caseID, kind string, par int) vfC06Case {
 					}
 				}
 			}
+			if r.Intn(5) == 0 {
+				rl.AddrLen = vfC06Boundaries[r.Intn(len(vfC06Boundaries))]
+			}
+			if rl.Mode == "dial_fail" && r.Intn(2) == 0 {
+				rl.MsgLen = vfC06Boundaries[r.Intn(len(vfC06Boundaries))]
+			}
 			us.Relays = []int{u}
 			c.Users = append(c.Users, us)
 			c.Relays = append(c.Relays, rl)
@@ -308,6 +321,35 @@ func vfC06Gen(k *vfKit, caseID, kind string, par int) vfC06Case {
 		c.LossPct = 1 + r.Intn(3)
 	}
 	return c
+}
+
+// vfC06GenBoundary enumerates the boundary lengths deterministically: for every length one relay whose
+// requested ADDRESS has exactly that length (small two-way transfer, nobody closes until all arrived) and
+// one failed dial whose error MESSAGE has exactly that length, each with its own client, all with the
+// given fast-open mode.
+func vfC06GenBoundary(k *vfKit, caseID string, fastOpen bool) vfC06Case {
+	r := k.Rand(caseID)
+	c := vfC06Case{CaseID: caseID, Kind: "boundary", Salt: r.Uint64(), LatencyMs: 1 + r.Intn(20), Logger: r.Intn(2) == 0}
+	add := func(rl vfC06Relay) {
+		rl.Idx, rl.User, rl.Seed = len(c.Relays), len(c.Users), r.Int63()
+		rl.UpChunk, rl.DownChunk, rl.ReadBuf, rl.StartMs = 1+r.Intn(2000), 1+r.Intn(2000), 1+r.Intn(8000), r.Intn(40)
+		c.Users = append(c.Users, vfC06User{Idx: rl.User, FastOpen: fastOpen, Relays: []int{rl.Idx}})
+		c.Relays = append(c.Relays, rl)
+	}
+	for _, l := range vfC06Boundaries {
+		add(vfC06Relay{Mode: "quiesce", Up: 200 + r.Intn(3000), Down: 200 + r.Intn(3000), AddrLen: l})
+		add(vfC06Relay{Mode: "dial_fail", Up: r.Intn(300), MsgLen: l})
+		add(vfC06Relay{Mode: "dial_fail", Up: r.Intn(300), AddrLen: l, MsgLen: vfC06Boundaries[r.Intn(len(vfC06Boundaries))]})
+	}
+	return c
+}
+
+// vfC06Pad pads s with filler up to exactly n bytes (n == 0 or too small: s unchanged).
+func vfC06Pad(prefix, suffix string, n int, fill byte) string {
+	if k := n - len(prefix) - len(suffix); k > 0 {
+		return prefix + strings.Repeat(string(fill), k) + suffix
+	}
+	return prefix + suffix
 }
 
 // vfC06GenChurn builds a "buffer churn" world: rounds back to back on ONE server. In every round relay A
@@ -398,6 +440,7 @@ type vfC06RS struct {
 	scratch    [2][]byte
 	stuckWrite bool
 	gateMissed bool
+	tcpHung    bool
 	dials      int
 	errAfter   int64         // t_error: server-side Read fails once it took this many bytes; -1 = never
 	eofAfter   int64         // t_halfclose: server-side Read returns EOF once it took this many bytes (writes still accepted); -1 = never
@@ -827,7 +870,35 @@ func (run *vfC06Run) drive(rs *vfC06RS) {
 	}
 	time.Sleep(time.Duration(sp.StartMs) * time.Millisecond)
 
-	conn, err := u.cl.TCP(rs.addr)
+	// Client.TCP is bounded on VIRTUAL time: a request that is never answered would otherwise keep the
+	// bubble alive for ever (keep-alives). The only way to release the call is to close the client.
+	type tcpRes struct {
+		conn net.Conn
+		err  error
+	}
+	resCh := make(chan tcpRes, 1)
+	go func() {
+		cn, e := u.cl.TCP(rs.addr)
+		resCh <- tcpRes{cn, e}
+	}()
+	var conn net.Conn
+	var err error
+	tcpTimer := time.NewTimer(vfC06WaitCap)
+	select {
+	case res := <-resCh:
+		conn, err = res.conn, res.err
+	case <-tcpTimer.C:
+		rs.mu.Lock()
+		rs.tcpHung = true
+		rs.mu.Unlock()
+		_ = u.cl.Close()
+		res := <-resCh
+		if res.conn != nil {
+			_ = res.conn.Close()
+		}
+		return
+	}
+	tcpTimer.Stop()
 	rs.mu.Lock()
 	rs.tcpErr = err
 	rs.mu.Unlock()
@@ -1034,6 +1105,7 @@ func (run *vfC06Run) driveDialFail(rs *vfC06RS, u *vfC06UserRT, conn net.Conn, e
 		run.write(rs, vfC06Up, conn, 0, int64(rs.sp.Up), r, -1)
 	}
 	buf := make([]byte, 4096)
+	_ = conn.SetReadDeadline(time.Now().Add(vfC06WaitCap)) // virtual: a response that never comes must not hang the bubble
 	n, rerr := conn.Read(buf)
 	if n > 0 {
 		rs.arrive(vfC06Down, buf[:n])
@@ -1089,10 +1161,10 @@ func vfC06RunCase(t *testing.T, k *vfKit, c vfC06Case) {
 			sp := &c.Relays[i]
 			rs := &vfC06RS{
 				sp: sp, key: "r" + strconv.Itoa(sp.Idx), log: w.Log, errAfter: -1, eofAfter: -1,
-				addr:   fmt.Sprintf("r%d.u%d.c06.verif:%d", sp.Idx, sp.User, 1000+sp.Idx),
+				addr:   vfC06Pad(fmt.Sprintf("r%d.u%d.", sp.Idx, sp.User), fmt.Sprintf("c06.verif:%d", 1000+sp.Idx), sp.AddrLen, 'x'),
 				keys:   [2]uint64{vfC06Key(c.Salt, sp.Idx, vfC06Up), vfC06Key(c.Salt, sp.Idx, vfC06Down)},
 				dialed: make(chan struct{}), tgtEOF: make(chan struct{}), readerDone: make(chan struct{}),
-				dialMsg: fmt.Sprintf("vfC06 refused %s r%d nonce %016x", c.CaseID, sp.Idx, vfC06Mix(c.Salt+uint64(sp.Idx))),
+				dialMsg: vfC06Pad(fmt.Sprintf("vfC06 refused %s r%d nonce %016x ", c.CaseID, sp.Idx, vfC06Mix(c.Salt+uint64(sp.Idx))), "", sp.MsgLen, 'm'),
 			}
 			if sp.Mode == "t_error" {
 				rs.errAfter = int64(sp.CutAt)
@@ -1341,6 +1413,19 @@ func vfC06Judge(k *vfKit, run *vfC06Run, evs []vfEvent) {
 			}
 			return m
 		}
+		if sp.AddrLen > 0 || sp.MsgLen > 0 {
+			k.Count("ev_varint_boundary_relays", 1)
+		}
+		if rs.tcpHung {
+			key, what := "dial:request-never-answered", "the outbound accepts the dial"
+			if sp.Mode == "dial_fail" {
+				key, what = "dial:error-not-carried", "the outbound refused the dial"
+			}
+			k.Violation(key, rrep(map[string]any{"addr_len": len(rs.addr), "addr": rs.addr}),
+				"relay %d: Client.TCP(address of %d bytes) did not return within %s of virtual time although %s", sp.Idx, len(rs.addr), vfC06WaitCap, what)
+			rs.mu.Unlock()
+			continue
+		}
 		if sp.Mode == "dial_fail" {
 			k.Count("ev_dial_fail_cases", 1)
 			if rs.dialFailOK {
@@ -1523,7 +1608,7 @@ var vfC06StuckOnce sync.Once
 
 func vfC06Sig(c *vfC06Case, rl *vfC06Relay) string {
 	u := c.Users[rl.User]
-	return fmt.Sprintf("%s|%d|%d|%d|%d|%d|%d|%d|%v|%v|%d|%d|%d|%d", rl.Mode, rl.Up, rl.Down, rl.Pre, rl.UpChunk, rl.DownChunk, rl.CutAt, rl.ReadBuf,
+	return fmt.Sprintf("%d|%d|%s|%d|%d|%d|%d|%d|%d|%d|%v|%v|%d|%d|%d|%d", rl.AddrLen, rl.MsgLen, rl.Mode, rl.Up, rl.Down, rl.Pre, rl.UpChunk, rl.DownChunk, rl.CutAt, rl.ReadBuf,
 		u.FastOpen, c.Logger, u.VetoAt, len(u.Relays), c.LatencyMs, c.LossPct)
 }
 
@@ -1594,6 +1679,18 @@ func TestVerifC06Churn(t *testing.T) {
 	var cases []vfC06Case
 	for i := 0; i < n; i++ {
 		cases = append(cases, vfC06GenChurn(k, fmt.Sprintf("c06c-%d", i)))
+	}
+	vfC06RunAll(t, k, cases)
+}
+
+// TestVerifC06Boundary: address and dial-error-message lengths at the varint width changes, fast open
+// off (case 0) and on (case 1), enumerated, not sampled.
+func TestVerifC06Boundary(t *testing.T) {
+	k := vfNewKit(t, "C06", vfC06Part("c06-boundary"))
+	defer k.Finish()
+	cases := []vfC06Case{vfC06GenBoundary(k, "c06b-0", false), vfC06GenBoundary(k, "c06b-1", true)}
+	for i := 2; i < k.N(2, 16); i++ {
+		cases = append(cases, vfC06GenBoundary(k, fmt.Sprintf("c06b-%d", i), i%2 == 1))
 	}
 	vfC06RunAll(t, k, cases)
 }
